@@ -17,4 +17,8 @@ OBLS = [
     Obl('C05.4s', H, 'obl_c05_track_update', 'B', 'TrackUpdater: step counter +1 (consecutive numbering); MFP -= step*xs unless the discrete action was chosen; status/energy/time untouched', mode='bv', defines=D, timeout=120),
     Obl('C05.5', H, 'obl_c05_eloss', 'B', 'ElossApplier: kinetic energy never increases (E\' = E - deposited exactly), stopped => killed+range action or discrete action; status only moves forward', mode='bv', defines=D, timeout=120),
     Obl('C05.6', H, 'obl_c01_tracking_cut', 'B', 'TrackingCutExecutor: alive/errored -> killed, energy zero', mode='bv', defines=D, timeout=300),
+    Obl('C05.3', 'C08/prop.cc', 'obl_c08_propagate', 'B', 'FieldPropagator (contract stubs for driver and geometry): 0 < travelled distance <= requested step on every path, incl. '
+        'the stuck-on-boundary bump', mode='real', validate=False, defines=('VERIF_SUBSTEPS=1',), timeout=60,
+        opts={'max_site_forks': 3, 'drop_on_bound': True, 'separate_asserts': True, 'fork_timeout_ms': 400}, bounds='max_substeps 1, retry branch <= 3'),
+    Obl('C05.8', 'C08/prop.cc', 'obl_c08_linear', 'B', 'LinearPropagator: 0 <= distance <= step and straight-line displacement == distance', mode='real', validate=False, timeout=120),
 ]
